@@ -308,6 +308,7 @@ package server
 //@   props C04
 //@   requires s != nil && params != nil && DocSmall(s, params.TextDocument.URI)
 //@   ensures [C04:absent] !hasDoc(s, params.TextDocument.URI) ==> len(result0) == 0
+//@   modifies s.workspace.cachedFormats
 
 //@ func (*Server).DidClose
 //@   props C01 C17
